@@ -2,6 +2,7 @@ package main
 
 import (
 	"flag"
+	"runtime/debug"
 	"runtime/pprof"
 	"fmt"
 	"os"
@@ -36,12 +37,15 @@ func main() {
 		f, _ := os.Create(pf)
 		pprof.StartCPUProfile(f)
 		go func() {
-			time.Sleep(25 * time.Second)
+			time.Sleep(240 * time.Second)
 			pprof.StopCPUProfile()
 			f.Close()
 			os.Exit(3)
 		}()
 	}
+	// the hash-consed term table is large and long-lived: collect rarely (bounded by a soft memory limit)
+	debug.SetGCPercent(1000)
+	debug.SetMemoryLimit(24 << 30)
 	t0 := time.Now()
 	w, err := loadWorld(*repo, nil)
 	if err != nil {
